@@ -427,4 +427,108 @@ def delete_skip(repo: Repo) -> RuleRun:
 
 delete_skip.rule_id = "C06.DELETE-SKIP"
 
-RULES = [sections, side_tables, vertex_ownership, patch_state, delete_skip, geometry_label, precision]
+def assemble_walk(repo: Repo, prop: str = PROP, rule: str = "C06.ASSEMBLE-WALK") -> RuleRun:
+    """Abstract run of Mesh.assemble over a symbolic depot (a lone operation, a 4-operation shape, a lone
+    operation) with every single operation deleted in turn: each non-deleted operation yields exactly one
+    block, in depot order, with its chops, cell zone, patches and faces; nothing else is skipped."""
+    r = RuleRun(prop, rule, floor=7, what="assemble() turns every non-deleted operation, and only those, into one block in depot order")
+    fn = repo.func("mesh.Mesh.assemble")
+    op_cls = repo.cls("construct.operations.operation.Operation")
+
+    def mk_op(name):
+        o = Obj(name, cls=op_cls)
+        o.set("chops", {0: [f"{name}.c0"], 1: [], 2: [f"{name}.c2a", f"{name}.c2b"]})
+        o.set("cell_zone", f"zone-{name}")
+        o.set("geometry", None)
+        return o
+
+    for deleted in (None, 0, 1, 2, 3, 4, 5):
+        ops = [mk_op(f"op{i}") for i in range(6)]
+        shape = Obj("shape", cls=repo.cls("construct.shape.Shape"))
+        shape.set("operations", ops[1:5])
+        shape.set("geometry", {"geo": ["x"]})
+        depot = [ops[0], shape, ops[5]]
+        mesh = Obj("mesh", cls=repo.cls("mesh.Mesh"))
+        mesh.set("depot", depot)
+        mesh.set("deleted", {ops[deleted]} if deleted is not None else set())
+        bl = Obj("block_list")
+        bl.set("blocks", [])
+        mesh.set("block_list", bl)
+        for nm in ("edge_list", "patch_list", "face_list", "geometry_list", "vertex_list"):
+            mesh.set(nm, Obj(nm))
+        ev_log = []
+
+        def hook(ev, call: ast.Call, name, ev_log=ev_log, bl=bl):
+            ch = attr_chain(call.func) or ""
+            if ch == "self._add_vertices":
+                o = ev.eval(call.args[0])
+                return [Sym(f"V:{o._name}:{k}") for k in range(8)]
+            if ch == "Block":
+                args = [ev.eval(a) for a in call.args]
+                b = Obj("block")
+                b.set("index", args[0])
+                b.set("vertices", args[1])
+                b.set("chops", [])
+                b.set("edges", [])
+                return b
+            if ch == "self.edge_list.add_from_operation":
+                return []
+            if isinstance(call.func, ast.Attribute) and call.func.attr == "chop" and isinstance(ev.eval(call.func.value), Obj) and ev.eval(call.func.value)._name == "block":
+                b = ev.eval(call.func.value)
+                b.get("chops").append((ev.eval(call.args[0]), ev.eval(call.args[1])))
+                return None
+            if ch == "self.block_list.add":
+                b = ev.eval(call.args[0])
+                bl.get("blocks").append(b)
+                ev_log.append(("block", b))
+                return None
+            if ch in ("self.patch_list.add", "self.face_list.add"):
+                args = [ev.eval(a) for a in call.args]
+                ev_log.append((ch.split(".")[1], args))
+                return None
+            if ch in ("self.add_geometry", "self.geometry_list.add"):
+                ev_log.append(("geometry", ev.eval(call.args[0])))
+                return None
+            if ch == "get_args":
+                return (0, 1, 2)
+            return NO_MATCH
+
+        try:
+            Evaluator(repo=repo, module=fn.module, call_hook=hook).call_funcinfo(fn, [mesh])
+        except Raised as err:
+            r.bad(fn, f"Mesh.assemble raises {err.exc_name} on the symbolic depot (deleted: {deleted})", fn.node, key=f"deleted={deleted}")
+            continue
+        except NotEvaluable as err:
+            raise AnalysisError(f"Mesh.assemble not evaluable on the symbolic depot: {err}") from err
+        live = [o for i, o in enumerate(ops) if i != deleted]
+        blocks = bl.get("blocks")
+        problems = []
+        got_ops = [repr(b.get("vertices")[0]).split(":")[1] for b in blocks]
+        if got_ops != [o._name for o in live]:
+            problems.append(f"blocks were created for operations {got_ops}; the non-deleted operations are {[o._name for o in live]}")
+        else:
+            for i, (b, o) in enumerate(zip(blocks, live)):
+                if b.get("index") != i:
+                    problems.append(f"block of {o._name} gets index {b.get('index')} instead of {i}")
+                want_chops = [(a, c) for a in (0, 1, 2) for c in o.get("chops")[a]]
+                if b.get("chops") != want_chops:
+                    problems.append(f"block of {o._name} receives chops {b.get('chops')} instead of {want_chops}")
+                if not b.has("cell_zone") or b.get("cell_zone") != o.get("cell_zone"):
+                    problems.append(f"block of {o._name} has no / the wrong cell zone")
+            for kind in ("patch_list", "face_list"):
+                seen = [a[1]._name for k, a in ev_log if k == kind]
+                if seen != [o._name for o in live]:
+                    problems.append(f"{kind}.add called for {seen}")
+                for k, a in ev_log:
+                    if k == kind and [repr(x) for x in a[0]] != [f"V:{a[1]._name}:{j}" for j in range(8)]:
+                        problems.append(f"{kind}.add for {a[1]._name} receives the vertices of another operation")
+        geos = [g for k, g in ev_log if k == "geometry"]
+        if geos != [{"geo": ["x"]}]:
+            problems.append(f"geometries added: {geos}; expected the shape's geometry once")
+        r.check(not problems, fn, f"deleted={deleted}: {len(blocks)} blocks", f"Mesh.assemble with operation {deleted} of [op0, shape(op1..op4), op5] deleted: " + "; ".join(problems[:4]), fn.node, key=f"deleted={deleted}")
+    return r
+
+
+assemble_walk.rule_id = "C06.ASSEMBLE-WALK"
+
+RULES = [sections, side_tables, vertex_ownership, assemble_walk, patch_state, delete_skip, geometry_label, precision]
